@@ -195,11 +195,31 @@ def check_reset(model, rep, R='C12.reset'):
                             cleared = True
                         if e2[0] == 'opaque-call' and str(e2[1]).endswith('.clear'):
                             cleared = True
-            if e[0] == 'opaque-call' and ('fromkeys' in str(e) or 'update' in str(e[1])):
+            if e[0] == 'opaque-call' and 'fromkeys' in str(e):
                 shared_list = True
     src = ast.unparse(m.node)
     if 'fromkeys' in src:
         shared_list = True
+    # `<...>.time_variables.update(<argument>)`: a dict comprehension over the variables that builds a new `[]` / `list()` per key
+    # clears like the loop does; `dict.fromkeys(keys, [])` hands ONE list to every key; anything else is not decided here
+    undecided_update = False
+    for c in ast.walk(m.node):
+        if isinstance(c, ast.Call) and isinstance(c.func, ast.Attribute) and c.func.attr == 'update' \
+                and 'time_variables' in ast.unparse(c.func.value) and len(c.args) == 1 and not c.keywords:
+            a = c.args[0]
+            fresh = isinstance(a, ast.DictComp) and len(a.generators) == 1 and 'time_variables' in ast.unparse(a.generators[0].iter) \
+                and not a.generators[0].ifs and isinstance(a.key, ast.Name) and isinstance(a.generators[0].target, ast.Name) \
+                and a.key.id == a.generators[0].target.id \
+                and ((isinstance(a.value, ast.List) and not a.value.elts)
+                     or (isinstance(a.value, ast.Call) and isinstance(a.value.func, ast.Name) and a.value.func.id == 'list' and not a.value.args))
+            if fresh:
+                cleared = True
+            elif 'fromkeys' in ast.unparse(a):
+                shared_list = True
+            else:
+                undecided_update = True
+    if undecided_update and not shared_list:
+        cleared = None
     if shared_list and not cleared:
         rep.violation(R, 'Powertrain.reset:clear', 'the time-variable lists are replaced through dict.fromkeys/update with a '
                       'single list object shared by every variable (the rerun appends all variables into one list)', m.loc)
